@@ -131,6 +131,56 @@ theorem fixed_linear_scale_spec (p : Ieee.FVal) (upem : Nat) (hu : 0 < upem) (hu
   simp only [this, if_true]
   exact h
 
+theorem isRHA_abs {P d r : Int} (h : IsRHA P d r) : 2 * (d * r) - d ≤ 2 * P ∧ 2 * P ≤ 2 * (d * r) + d := by
+  unfold IsRHA at h
+  by_cases hp : 0 ≤ P
+  · have := h.1 hp; omega
+  · have := h.2 (by omega); omega
+
+/-- **scaled_metric_error_bound** (the two roundings together): with the scale factor
+`scale = round(p64 · 2¹⁶ / upem)` (`p64` = the size in 26.6) and the result
+`r = round(scale · value / 64)`, the 16.16 result is within `1/2 + |value| / 128` units of `2⁻¹⁶` px of
+the exact scaled metric `value · p64 · 2¹⁶ / (64 · upem)` = `value · ppem / upem` pixels:
+`2 · |64 · upem · r − 2¹⁶ · p64 · value| ≤ upem · (64 + |value|)`. -/
+theorem scaled_metric_error_bound (p64 upem scale value r : Int) (hu : 0 < upem)
+    (hs : IsRHA (p64 * 65536) upem scale) (hr : IsRHA (scale * value) 64 r) :
+    2 * (64 * upem * r) - upem * (64 + iabs value) ≤ 2 * (65536 * p64 * value) ∧
+    2 * (65536 * p64 * value) ≤ 2 * (64 * upem * r) + upem * (64 + iabs value) := by
+  have ha := isRHA_abs hs
+  have hb := isRHA_abs hr
+  -- A = 2 p64 65536 - 2 upem scale ∈ [-upem, upem];  B = 2 scale value - 128 r ∈ [-64, 64]
+  generalize hA : 2 * (p64 * 65536) - 2 * (upem * scale) = A at *
+  generalize hB : 2 * (scale * value) - 2 * (64 * r) = B at *
+  have hAr : -upem ≤ A ∧ A ≤ upem := by omega
+  have hBr : -64 ≤ B ∧ B ≤ 64 := by omega
+  -- 2·65536·p64·value − 2·64·upem·r = value·A + upem·B
+  have key : 2 * (65536 * p64 * value) - 2 * (64 * upem * r) = value * A + upem * B := by
+    rw [← hA, ← hB]
+    simp only [Int.mul_sub, Int.mul_add, Int.mul_assoc, Int.mul_comm, Int.mul_left_comm]
+    omega
+  have hvA : -(iabs value * upem) ≤ value * A ∧ value * A ≤ iabs value * upem := by
+    unfold iabs
+    by_cases hv : value < 0
+    · simp only [hv, if_true]
+      have h1 : -value * A ≤ -value * upem := Int.mul_le_mul_of_nonneg_left hAr.2 (by omega)
+      have h2 : -value * (-upem) ≤ -value * A := Int.mul_le_mul_of_nonneg_left hAr.1 (by omega)
+      simp only [Int.neg_mul, Int.mul_neg, Int.neg_neg] at h1 h2 ⊢
+      omega
+    · simp only [hv, if_false]
+      have h1 : value * A ≤ value * upem := Int.mul_le_mul_of_nonneg_left hAr.2 (by omega)
+      have h2 : value * (-upem) ≤ value * A := Int.mul_le_mul_of_nonneg_left hAr.1 (by omega)
+      simp only [Int.mul_neg] at h2
+      omega
+  have huB : -(upem * 64) ≤ upem * B ∧ upem * B ≤ upem * 64 := by
+    have h1 : upem * B ≤ upem * 64 := Int.mul_le_mul_of_nonneg_left hBr.2 (by omega)
+    have h2 : upem * (-64) ≤ upem * B := Int.mul_le_mul_of_nonneg_left hBr.1 (by omega)
+    simp only [Int.mul_neg] at h2
+    omega
+  have e1 : upem * (64 + iabs value) = upem * 64 + iabs value * upem := by
+    rw [Int.mul_add, Int.mul_comm upem (iabs value)]
+  rw [e1]
+  omega
+
 /-! ## 2. advance width / left side bearing: lookup + HVAR delta + scaling, composed -/
 
 /-- **advance_width_composed**: for a glyph inside the glyph count, `advance_width` is
